@@ -200,7 +200,7 @@ class Body:
                 else:
                     if pr.get("variant"):
                         name = pr["variant"] + "." + name
-                    base = ("field", base, name)
+                    base = ("field", base, name, pr.get("adt", ""))
             elif k == "Index":
                 base = ("index", base, self.local(pr["local"], depth))
             elif k == "ConstantIndex":
